@@ -1343,9 +1343,15 @@ func c06R6(e *Engine) {
 		if !ok || c.Call.StaticCallee() == nil || c.Call.StaticCallee().Name() != "AddAttributes" {
 			return
 		}
-		for _, o := range e.originsCtx(c.Call.Args[1], ctx) {
-			if o == "fresh-map" {
-				fresh = true
+		args := []ssa.Value{c.Call.Args[1]}
+		if els := literalRangeElems(c.Call.Args[1]); len(els) > 0 {
+			args = els[:1] // loads run in the order of the list: the item is the first
+		}
+		for _, a := range args {
+			for _, o := range e.originsCtx(a, ctx) {
+				if o == "fresh-map" {
+					fresh = true
+				}
 			}
 		}
 	})
@@ -1658,6 +1664,7 @@ func c06R10(e *Engine) {
 		type load struct {
 			path []ssa.Instruction
 			kind string
+			sub  int // position in the literal list a single load site ranges over
 		}
 		var loads []load
 		e.walkLocal("interp", fn, 2, func(in ssa.Instruction, ctx []callCtx) {
@@ -1665,18 +1672,25 @@ func c06R10(e *Engine) {
 			if !ok || c.Call.StaticCallee() == nil || c.Call.StaticCallee().Name() != "AddAttributes" || len(c.Call.Args) < 2 {
 				return
 			}
-			kind := ""
-			for _, o := range e.originsCtx(c.Call.Args[1], ctx) {
-				switch {
-				case strings.HasSuffix(o, "Input.Attributes") || strings.Contains(o, "Input.Attributes of"):
-					kind = "values"
-				case o == "fresh-map" || strings.HasSuffix(o, "Input.Item") || strings.Contains(o, "Input.Item of"):
-					if kind == "" {
-						kind = "item"
+			// for _, m := range []map{item, values} { env.AddAttributes(m) }: one site, the loads in the order of the list
+			args := literalRangeElems(c.Call.Args[1])
+			if len(args) == 0 {
+				args = []ssa.Value{c.Call.Args[1]}
+			}
+			for sub, a := range args {
+				kind := ""
+				for _, o := range e.originsCtx(a, ctx) {
+					switch {
+					case strings.HasSuffix(o, "Input.Attributes") || strings.Contains(o, "Input.Attributes of"):
+						kind = "values"
+					case o == "fresh-map" || strings.HasSuffix(o, "Input.Item") || strings.Contains(o, "Input.Item of"):
+						if kind == "" {
+							kind = "item"
+						}
 					}
 				}
+				loads = append(loads, load{pathOf(in, ctx), kind, sub})
 			}
-			loads = append(loads, load{pathOf(in, ctx), kind})
 		})
 		construct := "interp." + name + ":values-loaded-after-item"
 		var item, values *load
@@ -1691,7 +1705,7 @@ func c06R10(e *Engine) {
 		switch {
 		case item == nil || values == nil:
 			e.undecided("R10", construct, e.pos(fn.Pos()), "the two environment loads (item, request values) were not both found (%d loads)", len(loads))
-		case pathBefore(item.path, values.path):
+		case pathBefore(item.path, values.path) || (samePath(item.path, values.path) && item.sub < values.sub):
 			e.pass("R10", construct, e.pos(fn.Pos()), "the item is loaded first, the request's values overwrite entries of the same name")
 		default:
 			e.fail("R10", construct, e.pos(fn.Pos()), "the request's values are not loaded after the stored item: a stored attribute named like a placeholder (\":owner\") replaces the value the request supplied, and the condition is decided on the item's own data")
@@ -2012,4 +2026,87 @@ func c06R17(e *Engine) {
 	} else {
 		e.pass("R17", construct, e.ipos(first), "the store is consulted under the resolved name before any path resolution, unconditionally")
 	}
+}
+
+func samePath(a, b []ssa.Instruction) bool {
+	if len(a) != len(b) {
+		return false
+	}
+	for i := range a {
+		if a[i] != b[i] {
+			return false
+		}
+	}
+	return true
+}
+
+// literalRangeElems: v is the element variable of `for _, v := range []T{a, b, …}` over a slice literal – returns a, b, …
+// in the order of the list (go/ssa: *(&lit[i+1]) with i the range counter starting at -1; the literal is an array whose
+// slots are stored once each at constant positions).
+func literalRangeElems(v ssa.Value) []ssa.Value {
+	u, ok := strip(v).(*ssa.UnOp)
+	if !ok || u.Op != token.MUL {
+		return nil
+	}
+	ia, ok := u.X.(*ssa.IndexAddr)
+	if !ok {
+		return nil
+	}
+	sl, ok := ia.X.(*ssa.Slice)
+	if !ok || sl.Low != nil || sl.High != nil {
+		return nil
+	}
+	al, ok := sl.X.(*ssa.Alloc)
+	if !ok {
+		return nil
+	}
+	pt, ok := al.Type().Underlying().(*types.Pointer)
+	if !ok {
+		return nil
+	}
+	arr, ok := pt.Elem().Underlying().(*types.Array)
+	if !ok {
+		return nil
+	}
+	// the counter: phi(-1, counter+1) + 1
+	inc, ok := ia.Index.(*ssa.BinOp)
+	if !ok || inc.Op != token.ADD {
+		return nil
+	}
+	phi, ok := inc.X.(*ssa.Phi)
+	if !ok || len(phi.Edges) != 2 {
+		return nil
+	}
+	init := false
+	for _, ed := range phi.Edges {
+		if n, isK := constInt(ed); isK && n == -1 {
+			init = true
+		} else if ed != ssa.Value(inc) {
+			return nil
+		}
+	}
+	if !init {
+		return nil
+	}
+	out := make([]ssa.Value, arr.Len())
+	for _, r := range refsOf(al) {
+		switch x := r.(type) {
+		case *ssa.Slice:
+		case *ssa.IndexAddr:
+			n, isK := constInt(x.Index)
+			sts := storesTo(x)
+			if !isK || len(sts) != 1 || n < 0 || n >= arr.Len() || out[n] != nil {
+				return nil
+			}
+			out[n] = sts[0].Val
+		default:
+			return nil
+		}
+	}
+	for _, o := range out {
+		if o == nil {
+			return nil
+		}
+	}
+	return out
 }
